@@ -8,7 +8,7 @@ tmp = tempfile.mkdtemp(prefix="cinco-dbg-")
 try:
     shutil.copytree("/repo/cincoconfig", os.path.join(tmp, "cincoconfig"), ignore=shutil.ignore_patterns("__pycache__"))
     if sys.argv[1] != "-":
-        subprocess.run(["patch", "-p1", "-s", "-i", package_part(os.path.abspath(sys.argv[1]))], cwd=tmp, check=True)
+        subprocess.run(["patch", "-p1", "-s"], input=package_part(os.path.abspath(sys.argv[1])), text=True, cwd=tmp, check=True)
     from engine.model import Model
     from engine.effects import Analysis
     from rules.common import STATE, CALLS
